@@ -6,23 +6,75 @@ From Coq Require Import ZifyBool ZifyN ZifyNat.
 Local Open Scope Z_scope.
 Ltac Zify.zify_post_hook ::= Z.to_euclidean_division_equations.
 
+(* one SafeAddDuration step of the parser: seconds (n = 1) or days (n = 86400) into the time point *)
+Lemma add_step P R tp n c v : c14_rep P R -> (n = 1 \/ n = 86400) ->
+  fits R tp = true -> fits I64 c = true -> fits I64 v = true -> v * pnum P = c * (n * pden P) ->
+  fits R (tp + v) = true ->
+  safe_add_tp (pty P R) tp (mkD I64 n 1) c = Ok (tp + v).
+Proof.
+  intros HR Hn Htp Hc Hv Hx Hsum.
+  destruct (prec_facts P) as (Hpn & Hpd & _).
+  assert (HD : rep4 (d_rep (pty P R)) /\ wf_dty (pty P R)).
+  { unfold pty, wf_dty, rep4. cbn [d_rep d_num d_den]. destruct HR as [-> | ->]; auto. }
+  destruct HD as [HDr HDw].
+  rewrite safe_add_tp_spec; try assumption; [| left; reflexivity].
+  destruct (Z.eqb_spec c 0) as [E0|E0].
+  - assert (v = 0) by nia. subst v. rewrite Z.add_0_r. reflexivity.
+  - rewrite (op_dty_signed P R (mkD I64 n 1) HR ltac:(left; reflexivity)).
+    rewrite (cast_into_prec P n c v Hn Hc Hv Hx). cbn [as_out_of_range bind pty d_rep]. rewrite Hsum. reflexivity.
+Qed.
+
+(* the fraction step *)
+Lemma add_frac P R tp r : c14_rep P R -> fits R tp = true -> fits R r = true -> fits R (tp + r) = true ->
+  safe_add_tp (pty P R) tp (pty P R) r = Ok (tp + r).
+Proof.
+  intros HR Htp Hr Hsum.
+  destruct (prec_facts P) as (Hpn & Hpd & _).
+  assert (HD : rep4 (d_rep (pty P R)) /\ wf_dty (pty P R)).
+  { unfold pty, wf_dty, rep4. cbn [d_rep d_num d_den]. destruct HR as [-> | ->]; auto. }
+  destruct HD as [HDr HDw].
+  rewrite safe_add_tp_spec; try assumption; [| right; reflexivity].
+  destruct (Z.eqb_spec r 0) as [E0|E0]; [subst r; rewrite Z.add_0_r; reflexivity|].
+  assert (Ecast : safe_cast (pty P R) (op_dty (pty P R) (pty P R)) r = Ok r).
+  { destruct HR as [-> | ->].
+    - change (op_dty (pty P I64) (pty P I64)) with (pty P I64). apply safe_cast_same.
+    - apply safe_cast_complete; cbn [op_dty op_rep pty d_rep d_num d_den].
+      + right. left. reflexivity.
+      + right. right. left. reflexivity.
+      + split; cbn; lia.
+      + split; cbn; lia.
+      + destruct (prec_facts P) as (_ & _ & _ & ? & ? & _). nia.
+      + destruct (prec_facts P) as (_ & _ & _ & ? & ? & _). nia.
+      + exact Hr.
+      + unfold simple_ratio. rewrite (ratio_div_self (mkD I32 (pnum P) (pden P))); [left; reflexivity | split; cbn; lia | reflexivity | reflexivity].
+      + apply fits_I32 in Hr. apply fits_I64. lia.
+      + unfold exact_cast, op_dty, pty. cbn [d_num d_den]. ring. }
+  rewrite Ecast. cbn [as_out_of_range bind pty d_rep]. rewrite Hsum. reflexivity.
+Qed.
+
 (* ---------- the whole of To(string) -> time_point on the fields of an exact instant ---------- *)
 
 Lemma tp_of_parts_ok P R t y m d :
   c14_rep P R -> fits R t = true ->
   valid_date (y, m, d) -> days_from_civil y m d = t / tpd P ->
-  -10000000000000000 <= y <= 10000000000000000 ->
-  fits I64 (t / tpd P * tpd P) = true ->
+  -30000000000000000 <= y <= 30000000000000000 ->
+  t / tpd P <= 9223372036854775807 - 719468 ->
   let tod := t mod tpd P in let sec := sec_of P tod in
   tp_of_parts P R (mkUtc y m d (sec / 3600) (sec mod 3600 / 60) (sec mod 60)
                          (if sub_second P then Some (tod mod pden P * tick_ns P) else None)) = Ok t.
 Proof.
-  intros HR Ht Hv Hday Hy Hf30 tod sec.
+  intros HR Ht Hv Hday Hy Hdmax tod sec.
   destruct (prec_facts P) as (Hpn & Hpd & Hone & Hbn & Hbd & Htpd & Htick).
-  assert (HR' : R = I64 \/ R = I32) by (destruct HR as [?|[? _]]; auto).
-  assert (Htod : 0 <= tod < tpd P) by (unfold tod; apply Z.mod_pos_bound, tpd_pos).
+  pose proof (tpd_pos P) as Htp0.
+  assert (Htod : 0 <= tod < tpd P) by (unfold tod; apply Z.mod_pos_bound; exact Htp0).
   pose proof (sec_of_bounds P tod Htod) as Hsec. fold sec in Hsec.
   destruct Hv as [Hm Hd]. pose proof (dim_bounds y m) as Hdim.
+  assert (Ht64 : -9223372036854775808 <= t <= 9223372036854775807).
+  { apply fits_iff in Ht. destruct HR as [-> | ->]; unfold tmin, tmax, half in Ht; cbn [is_signed] in Ht; lia. }
+  set (day := t / tpd P) in *.
+  assert (Hdm : t = day * tpd P + tod) by (unfold day, tod; pose proof (Z.div_mod t (tpd P) ltac:(lia)); lia).
+  assert (Hday64 : -9223372036854775808 <= day <= 9223372036854775807).
+  { unfold day. split; [apply Z.div_le_lower_bound; nia | apply Z.div_le_upper_bound; nia]. }
   rewrite tp_of_parts_unfold. cbn [u_year u_mo u_day u_hour u_min u_sec u_frac].
   rewrite date_steps_ok by lia. rewrite Hday. cbv zeta.
   rewrite (arith_fits I64 (sec / 3600 * 3600)) by fits_side. rewrite bind_ok.
@@ -30,72 +82,63 @@ Proof.
   rewrite arith_fits by fits_side. rewrite bind_ok.
   rewrite arith_fits by fits_side. rewrite bind_ok.
   replace (sec / 3600 * 3600 + sec mod 3600 / 60 * 60 + sec mod 60) with sec by lia.
-  set (D := pty P R).
-  assert (HD : rep4 (d_rep D) /\ wf_dty D).
-  { unfold D, pty, wf_dty, rep4. cbn [d_rep d_num d_den]. destruct HR' as [-> | ->]; auto. }
-  destruct HD as [HDr HDw].
   set (frac := if sub_second P then tod mod pden P else 0).
   assert (Hfrac : 0 <= frac < pden P /\ tod = sec * pden P / pnum P + frac /\ (sec * pden P) mod pnum P = 0).
   { unfold frac, sec, sec_of. destruct P; cbn [sub_second pnum pden] in *; unfold tpd in Htod; lia. }
   destruct Hfrac as (Hfr1 & Hfr2 & Hfr3).
   set (tod1 := sec * pden P / pnum P) in *.
   assert (Htod1 : 0 <= tod1 <= tod) by lia.
-  assert (HfitR : forall x, 0 <= x <= tod -> fits R x = true).
-  { intros x Hx. apply fits_iff. destruct HR as [-> | [-> Hs]]; unfold tmin, tmax, half; cbn [is_signed]; [destruct P; unfold tpd in *; lia|].
-    destruct P; try discriminate Hs; unfold tpd in *; lia. }
-  (* 1. the time of day *)
-  assert (S1 : safe_add_tp D 0 SecT sec = Ok tod1).
-  { rewrite safe_add_tp_spec; try assumption; [| left; reflexivity | apply HfitR; lia | apply fits_I64; lia].
-    destruct (Z.eqb_spec sec 0) as [E0|E0].
-    - f_equal. unfold tod1. rewrite E0. reflexivity.
-    - unfold D. rewrite (op_dty_signed P R SecT HR' ltac:(left; reflexivity)).
-      change SecT with (mkD I64 1 1).
-      rewrite (cast_into_prec P 1 sec tod1); [| left; reflexivity | apply fits_I64; lia | apply fits_I64; destruct P; unfold tpd in *; lia |].
-      + cbn [as_out_of_range bind]. rewrite Z.add_0_l, HfitR by lia. reflexivity.
-      + unfold tod1. pose proof (Z.div_mod (sec * pden P) (pnum P) ltac:(lia)). lia. }
-  rewrite S1, bind_ok.
-  (* 2. the fraction *)
-  assert (S2 : (match (if sub_second P then Some (tod mod pden P * tick_ns P) else None) with
-                | Some ns => r <- dround NsT D ns ;; safe_add_tp D tod1 D r
-                | None => Ok tod1
-                end) = Ok tod).
-  { destruct (sub_second P) eqn:Es.
+  assert (Hx1 : tod1 * pnum P = sec * pden P) by (unfold tod1; pose proof (Z.div_mod (sec * pden P) (pnum P) ltac:(lia)); lia).
+  pose proof (rep_bounds R) as HB. apply fits_iff in Ht.
+  assert (HfR : forall x, (0 <= x <= t \/ t <= x <= 0) -> fits R x = true) by (intros x Hx; apply fits_iff; lia).
+  assert (Hf0 : fits R 0 = true) by (apply fits_iff; lia).
+  (* the fraction step, uniformly *)
+  assert (Sfrac : forall tp, fits R tp = true -> fits R (tp + frac) = true -> fits R frac = true ->
+     (match (if sub_second P then Some (tod mod pden P * tick_ns P) else None) with
+      | Some ns => r <- dround NsT (pty P R) ns ;; safe_add_tp (pty P R) tp (pty P R) r
+      | None => Ok tp
+      end) = Ok (tp + frac)).
+  { intros tp Htpf Hsum Hff. destruct (sub_second P) eqn:Es.
     - assert (Hfr : frac = tod mod pden P) by (unfold frac; try rewrite Es; reflexivity). rewrite <- Hfr.
       assert (Htk : 0 < tick_ns P /\ frac * tick_ns P <= 999999999) by (destruct P; try discriminate Es; cbn [tick_ns pden] in *; lia).
-      unfold D. rewrite dround_ns by (try assumption; lia). rewrite bind_ok, rhe_exact by lia. fold D.
-      rewrite safe_add_tp_spec; try assumption; [| right; reflexivity | apply HfitR; lia | apply HfitR; lia].
-      destruct (Z.eqb_spec frac 0) as [E0|E0]; [f_equal; lia|].
-      assert (Eop : op_dty D D = D).
-      { unfold D. rewrite (op_dty_signed P R (pty P R) HR' ltac:(right; reflexivity)).
-        destruct HR as [-> | [-> Hs]]; [reflexivity | rewrite Es in Hs; discriminate Hs]. }
-      rewrite Eop, safe_cast_same. cbn [as_out_of_range bind].
-      rewrite HfitR by lia. f_equal. lia.
-    - f_equal. unfold frac in *. try rewrite Es in *. lia. }
-  rewrite S2, bind_ok.
-  (* 3. the days *)
-  rewrite safe_add_tp_spec; try assumption; [| left; reflexivity | apply HfitR; lia |].
-  2:{ apply fits_I64. apply fits_iff in Ht. pose proof (tpd_pos P).
-      assert (tmin R >= -9223372036854775808 /\ tmax R <= 9223372036854775807) by (destruct HR' as [-> | ->]; vm_compute; split; discriminate).
-      split; [apply Z.div_le_lower_bound; nia | apply Z.div_le_upper_bound; nia]. }
-  pose proof (Z.div_mod t (tpd P) ltac:(pose proof (tpd_pos P); lia)) as Hdm. fold tod in Hdm.
-  destruct (Z.eqb_spec (t / tpd P) 0) as [E0|E0]; [f_equal; rewrite E0 in Hdm; lia|].
-  unfold D. rewrite (op_dty_signed P R (mkD I64 86400 1) HR' ltac:(left; reflexivity)).
-  rewrite (cast_into_prec P 86400 (t / tpd P) (t / tpd P * tpd P)); [| right; reflexivity | | exact Hf30 | nia].
-  2:{ apply fits_I64. apply fits_iff in Ht. pose proof (tpd_pos P).
-      assert (tmin R >= -9223372036854775808 /\ tmax R <= 9223372036854775807) by (destruct HR' as [-> | ->]; vm_compute; split; discriminate).
-      split; [apply Z.div_le_lower_bound; nia | apply Z.div_le_upper_bound; nia]. }
-  cbn [as_out_of_range bind].
-  replace (tod + t / tpd P * tpd P) with t by lia. unfold pty. cbn [d_rep]. rewrite Ht. reflexivity.
+      rewrite dround_ns by (try exact HR; lia). rewrite bind_ok, rhe_exact by lia.
+      apply add_frac; assumption.
+    - f_equal. unfold frac. try rewrite Es. lia. }
+  assert (Hpdb : pden P <= 1000000000) by exact Hbd.
+  destruct (Z.leb_spec 0 day) as [Hdp|Hdn].
+  - (* on or after the epoch: time, fraction, days *)
+    assert (Ht0 : 0 <= t) by nia.
+    assert (Hdt : 0 <= day * tpd P <= t) by nia.
+    change SecT with (mkD I64 1 1).
+    rewrite (add_step P R 0 1 sec tod1); try assumption; try (left; reflexivity);
+      [| apply fits_I64; lia | apply fits_I64; lia | lia | apply HfR; lia].
+    rewrite bind_ok, Z.add_0_l.
+    rewrite Sfrac by (apply HfR; lia). rewrite bind_ok.
+    rewrite (add_step P R (tod1 + frac) 86400 day (day * tpd P)); try assumption; try (right; reflexivity);
+      [| apply HfR; lia | apply fits_I64; lia | apply fits_I64; lia | nia | apply HfR; lia].
+    f_equal. lia.
+  - (* before the epoch: next day, fraction, back by the rest of the day *)
+    assert (Ht0 : t < 0) by nia.
+    set (a1 := (day + 1) * tpd P).
+    assert (Ha1 : t < a1 <= 0) by (unfold a1; nia).
+    rewrite arith_fits by fits_side. rewrite bind_ok.
+    rewrite (add_step P R 0 86400 (day + 1) a1); try assumption; try (right; reflexivity);
+      [| apply fits_I64; lia | apply fits_I64; lia | unfold a1; nia | apply HfR; lia].
+    rewrite bind_ok, Z.add_0_l.
+    assert (Hff : fits R frac = true).
+    { apply fits_iff. destruct HR as [-> | ->]; unfold tmin, tmax, half; cbn [is_signed]; lia. }
+    assert (Hsumf : fits R (a1 + frac) = true).
+    { apply fits_iff. destruct HR as [-> | ->]; unfold tmin, tmax, half in *; cbn [is_signed] in *; lia. }
+    rewrite Sfrac by (try assumption; apply HfR; lia). rewrite bind_ok.
+    rewrite arith_fits by fits_side. rewrite bind_ok.
+    change SecT with (mkD I64 1 1).
+    rewrite (add_step P R (a1 + frac) 1 (sec - 86400) (tod1 - tpd P)); try assumption; try (left; reflexivity);
+      [| apply fits_I64; lia | apply fits_I64; destruct P; unfold tpd in *; lia | nia | ].
+    + f_equal. unfold a1. lia.
+    + replace (a1 + frac + (tod1 - tpd P)) with t by (unfold a1; lia). apply fits_iff. exact Ht.
 Qed.
 
 (* ------------------------------------------------------------------ T_C14_parse_print *)
-
-Lemma dim_le_table y m : 1 <= m <= 12 -> dim y m <= DaysInMonth m.
-Proof.
-  intros Hm. unfold dim, DaysInMonth.
-  assert (Hc : m = 1 \/ m = 2 \/ m = 3 \/ m = 4 \/ m = 5 \/ m = 6 \/ m = 7 \/ m = 8 \/ m = 9 \/ m = 10 \/ m = 11 \/ m = 12) by lia.
-  destruct Hc as [?|[?|[?|[?|[?|[?|[?|[?|[?|[?|[?|?]]]]]]]]]]]; subst m; cbn; destruct (leap y); lia.
-Qed.
 
 Theorem tp_roundtrip P R t : c14_rep P R -> fits R t = true -> rt_defect P R t = false ->
   exists text, tp_print P R t = Ok text /\ tp_parse P R text = Ok t.
@@ -106,14 +149,21 @@ Proof.
   eexists. split; [exact E|].
   assert (Htod : 0 <= tod < tpd P) by (unfold tod; apply Z.mod_pos_bound, tpd_pos).
   pose proof (sec_of_bounds P tod Htod) as Hsec. fold sec in Hsec.
-  assert (Hk : (4 <= year_k P <= 15)%nat) by (destruct P; cbn; lia).
-  assert (H15 : p10 (year_k P) <= p10 15) by (apply p10_mono; lia).
-  change (p10 15) with 1000000000000000 in H15.
-  destruct Hv as [Hm Hdd]. pose proof (dim_le_table y m Hm) as Htab.
+  assert (Hk : (4 <= year_k P <= 17)%nat) by (destruct P; cbn; lia).
+  assert (H17 : p10 (year_k P) <= p10 17) by (apply p10_mono; lia).
+  change (p10 17) with 100000000000000000 in H17.
+  assert (Hy3 : -30000000000000000 <= y <= 30000000000000000).
+  { pose proof (year_linear y m d Hv) as Hlin. cbv zeta in Hlin. rewrite Hd in Hlin.
+    unfold rt_defect in Hdef.
+    assert (-9223372036854775808 <= t / tpd P).
+    { apply fits_iff in Ht. pose proof (tpd_pos P).
+      assert (tmin R >= -9223372036854775808) by (destruct HR as [-> | ->]; vm_compute; discriminate).
+      apply Z.div_le_lower_bound; nia. }
+    lia. }
   unfold tp_parse.
-  rewrite parse_printed; try lia.
+  rewrite parse_printed; try assumption; try lia.
   2:{ apply fits_I64. lia. }
-  2:{ change (p10 18) with 1000000000000000000. lia. }
+  2:{ change (p10 19) with 10000000000000000000. lia. }
   2:{ unfold frac_opt. destruct (sub_second P) eqn:Es; [|exact I].
       split; [unfold frac_width; destruct P; try discriminate Es; cbn; auto|].
       replace (p10 (frac_digits P)) with (pden P) by (destruct P; try discriminate Es; reflexivity).
@@ -126,9 +176,7 @@ Proof.
   { unfold frac_opt. destruct (sub_second P) eqn:Es; [|reflexivity].
     f_equal. f_equal. destruct P; try discriminate Es; reflexivity. }
   rewrite Efr.
-  apply (tp_of_parts_ok P R t y m d HR Ht (conj Hm Hdd)); try lia.
-  - rewrite days_from_civil_spec by (split; assumption). exact Hd.
-  - apply fits_I64. unfold rt_defect in Hdef. cbv zeta in Hdef. apply fits_iff in Ht. pose proof (tpd_pos P).
-    assert (tmin R >= -9223372036854775808 /\ tmax R <= 9223372036854775807) by (destruct HR as [-> | [-> _]]; vm_compute; split; discriminate).
-    pose proof (Z.div_mod t (tpd P) ltac:(lia)). pose proof (Z.mod_pos_bound t (tpd P) ltac:(lia)). lia.
+  apply (tp_of_parts_ok P R t y m d HR Ht Hv); try lia.
+  - rewrite days_from_civil_spec by exact Hv. exact Hd.
+  - unfold rt_defect in Hdef. lia.
 Qed.
